@@ -22,6 +22,21 @@ func TestC09(t *testing.T) {
 	Ev.Assume("damage happens before application starts; damage during the run (after a block's verdict was cached) is not demanded to be detected")
 	Prop(t, "C09", func(rt *rapid.T) {
 		pair := GenPair(rt, GenOpts{Links: true, EmptyDirs: true, LowEntropy: true, MaxMid: 260 * KiB, Big: rapid.IntRange(0, 29).Draw(rt, "allowbig") == 0})
+		var forcedFaults []Fault
+		if rapid.IntRange(0, 7).Draw(rt, "outoforder") == 0 {
+			// blocks of one old file reused out of order (second part first), with damage in a
+			// low-numbered block that is only read later
+			nb := rapid.IntRange(3, 7).Draw(rt, "ooblocks")
+			data := Bytes(rapid.Uint64().Draw(rt, "ooseed"), nb*BlockSize+rapid.IntRange(0, 3000).Draw(rt, "ootail"))
+			cut := rapid.IntRange(1, nb-1).Draw(rt, "oocut") * BlockSize
+			pair.Old["oo/swap.bin"] = &Entry{Kind: KFile, Data: data}
+			pair.New["oo/swap.bin"] = &Entry{Kind: KFile, Data: append(append([]byte{}, data[cut:]...), data[:cut]...)}
+			pair.Meta["oo/swap.bin"] = FileMeta{From: "oo/swap.bin", Op: "halves swapped"}
+			pair.Old.Normalize()
+			pair.New.Normalize()
+			forcedFaults = []Fault{{Kind: "flip", Path: "oo/swap.bin", Off: rapid.IntRange(0, cut-1).Draw(rt, "ooflip"), Seed: 3}}
+			Ev.Probe("old_blocks_reused_out_of_order_with_damage_in_an_earlier_block")
+		}
 		dir, cleanup := RunDir()
 		defer cleanup()
 		oldDir, newDir, dmgDir, outDir := filepath.Join(dir, "old"), filepath.Join(dir, "new"), filepath.Join(dir, "dmg"), filepath.Join(dir, "out")
@@ -46,7 +61,7 @@ func TestC09(t *testing.T) {
 					ffs = append(ffs, f)
 				}
 			}
-			damaged, applied = ApplyFaults(pair.Old, ffs)
+			damaged, applied = ApplyFaults(pair.Old, append(ffs, forcedFaults...))
 		}
 		pristine := pair.Old.Diff(damaged) == ""
 		Must(damaged.Materialize(dmgDir), "materialize damaged old")
